@@ -35,6 +35,12 @@ Fixpoint zlen_from {A} (acc : Z) (l : list A) : Z :=
   match l with [] => acc | _ :: t => zlen_from (acc + 1) t end.
 Definition zlenT {A} (l : list A) : Z := zlen_from 0 l.
 
+(* the bytes a record of layout L is decoded from: a statically sized record only needs its
+   first sizeof(L) bytes (construct reads exactly those); a layout with arrays gets the rest of
+   the stream.  (Keeps the cost of one read independent of the stream length.) *)
+Definition window (L : layout) (bs : list Z) : list Z :=
+  match layout_size L with Some n => firstn n bs | None => bs end.
+
 (* ------------------------------------------------------------------ containers *)
 (* a field of a parsed construct Container: int, bytes (Array of bytes / padding),
    list of ints, or the name an Enum adapter substituted *)
